@@ -32,6 +32,7 @@ def gen(tier, rng, cov):
             s += any(x.startswith("Cancel") for x in w)
             # an ungraceful death (socket file left behind) followed by a reattach
             s += 2 * any(x.startswith("Crash") and any(y.startswith("Reattach") for y in w[i + 1:]) for i, x in enumerate(w))
+            s += 2 * any(x.startswith("Again") for x in w)
             return s
         good = [w for w in words if score(w) >= 2]
         n = {"quick": 16, "thorough": 300}[tier]
